@@ -171,8 +171,10 @@ impl Part for C14 {
             }
             (a, b) => out.fail(format!("sealing failed: composed {} single-shot {}", a.as_ref().map(|_| ()).class(), b.as_ref().map(|_| ()).class())),
         }
-        if rng_c.log != rng_s.log || rng_c.drawn() != rng_s.drawn() {
-            out.fail(format!("RNG draw log differs: composed {:?} single-shot {:?}", rng_c.log, rng_s.log));
+        // (the NUMBER of bytes drawn, not the pattern of calls that drew them: the results above already show that the
+        // same bytes were used)
+        if rng_c.drawn() != rng_s.drawn() {
+            out.fail(format!("single_shot_seal draws {} bytes from the caller's RNG, setup_sender + seal draws {}", rng_s.drawn(), rng_c.drawn()));
         }
         match (&composed_ip, &ssi) {
             (Obs::Ok((enc, b, Obs::Ok(t))), Obs::Ok((enc2, t2))) => {
@@ -191,7 +193,7 @@ impl Part for C14 {
             }
             (a, b) => out.fail(format!("in-place sealing failed: composed {} single-shot {}", a.as_ref().map(|_| ()).class(), b.as_ref().map(|_| ()).class())),
         }
-        if rng_ci.log != rng_si.log {
+        if rng_ci.drawn() != rng_si.drawn() {
             out.fail("RNG draw log differs between composed and single-shot in-place sealing");
         }
 
